@@ -197,7 +197,7 @@ bounded_only('C17', 'bounded.c17',
     'Trusted: specs/ig.py (exact for emptiness; the property quantifies over grammars in reduced form with start variable S). Aho marking over sets of frozensets with early exits and ordering heuristics: no invariant within reach of the VC generator short of the published correctness proof.',
     ['IndexedGrammar.is_empty', '_duplication_processing', '_production_process', 'addrec_bis', 'addrec_ter', 'Rules', 'RuleOrdering', 'remove_useless_rules', 'FST.intersection'],
     'case = one rule list (with a permutation seed) or a rule list with an automaton; non-trivial = non-empty language using a production and a consumption rule / non-empty intersection',
-    {'quick': '1500 grammars x (permutations x optim) + 500 intersections', 'thorough': 'x10'}, hashseeds={'quick': [0, 1], 'thorough': [0, 1, 2, 3]})
+    {'quick': '1500 grammars x (permutations x optim) + 500 intersections; a grammar whose check exceeds 8 s (the marking algorithm is exponential) is skipped and counted', 'thorough': 'x10'}, hashseeds={'quick': [0, 1], 'thorough': [0, 1, 2, 3]}, case_timeout_s=8)
 
 bounded_only('C20', 'bounded.c20',
     'Bounded stand-in only: from_networkx(to_networkx()) must reproduce start/final marking and transitions of random automata, PDAs and FSTs whose values are JSON-representable (strings with blanks, quotes, slashes, non-ASCII; integers) and free of the separators; CFG.from_text(to_text()) must keep the language (words <=4) for grammars over whitespace-free tokens incl. lower-case variables and capitalised terminals; every box of RecursiveAutomaton.from_ebnf / from_regex must accept exactly the alternatives of its head (reference regex reading, words <=3).',
